@@ -198,6 +198,14 @@ pub fn run(ctx: &Ctx) -> i32 {
             }
         }
     }
+    // both length prefixes long at once (4+5 and 5+4 bytes of framing): quick runs these two,
+    // thorough also 5+5
+    let none1 = WCfg { codec: grenad::CompressionType::None, level: 0, block_size: None, interval: None, levels: Some(1) };
+    cases.push((none1.clone(), 1 << 21, 1 << 28));
+    cases.push((none1.clone(), 1 << 28, 1 << 21));
+    if ctx.tier == Tier::Thorough {
+        cases.push((none1.clone(), 1 << 28, 1 << 28));
+    }
     for &big in lens.iter().filter(|l| **l >= (1 << 28) - 1) {
         cases.push((WCfg { codec: grenad::CompressionType::None, level: 0, block_size: None, interval: None, levels: Some(1) }, big, 3));
         cases.push((WCfg { codec: grenad::CompressionType::None, level: 0, block_size: None, interval: None, levels: Some(1) }, 5, big));
